@@ -249,7 +249,7 @@ func c07Run(tier string, seed int64, outdir string, replay string) error {
 			return err
 		}
 		in.Subj = c06Subject{}
-		if in.Backend == c07BackendFS {
+		if in.Backend == c07BackendFS || in.Backend == c07BackendFSErr {
 			base, err := os.MkdirTemp("", "c07fs-")
 			if err != nil {
 				return err
@@ -317,6 +317,41 @@ func c07Run(tier string, seed int64, outdir string, replay string) error {
 				Plan: c06Plan{From: -1, Crash: k}, Kind: "crash-after-k", Backend: c07BackendFS})
 		}
 	}
+	// storage errors on the real FileStorage (wrapper-injected, in process): quick = the three Stores of the
+	// save with {error at k, errors at k and k+1}; thorough = every index with {error at k, errors from k on,
+	// errors at k and k+1}
+	for vi, v := range variants {
+		if c07VariantMemoryOnly(v.Name) {
+			continue
+		}
+		var ks []int
+		if tier == "thorough" {
+			for k := 0; k < info[vi].L; k++ {
+				ks = append(ks, k)
+			}
+		} else if info[vi].storeKey >= 0 {
+			ks = []int{info[vi].storeKey, info[vi].storeKey + 1, info[vi].storeKey + 2}
+		}
+		for _, k := range ks {
+			plans := []struct {
+				kind string
+				p    c06Plan
+			}{
+				{"error-at-k", c06Plan{Fails: []int{k}, From: -1, Crash: -1}},
+				{"error-at-k-and-k+1", c06Plan{Fails: []int{k, k + 1}, From: -1, Crash: -1}},
+			}
+			if tier == "thorough" {
+				plans = append(plans, struct {
+					kind string
+					p    c06Plan
+				}{"errors-from-k", c06Plan{From: k, Crash: -1}})
+			}
+			for _, pl := range plans {
+				fsIns = append(fsIns, c07In{Variant: v.Name, Cfg: v.Cfg, Setup: v.Setup, Hop: v.Hop, Rec: recOrc,
+					Plan: pl.p, Kind: pl.kind, Backend: c07BackendFSErr})
+			}
+		}
+	}
 	base, err := os.MkdirTemp("", "c07fs-")
 	if err != nil {
 		return err
@@ -357,11 +392,12 @@ func c07Run(tier string, seed int64, outdir string, replay string) error {
 	}
 	nfs := c07EmitFS(w, <-fsDone)
 	w.Meta.Exhaustive = true
-	w.Meta.Universe = fmt.Sprintf("%d variants (obtain/renew x fresh/reused key x 1/2 issuers x which issuer holds the old bundle) x every Storage-call index k of the fault-free run x {crash after k, error at k, errors from k on, errors at k and k+1, errors at k and k+2, error at k then crash}: %d fault experiments on the in-memory double (exhaustive); plus %d real process deaths (child SIGKILLed after call k) on FileStorage", len(variants), total, nfs)
+	w.Meta.Universe = fmt.Sprintf("%d variants (obtain/renew x fresh/reused key x 1/2 issuers x which issuer holds the old bundle) x every Storage-call index k of the fault-free run x {crash after k, error at k, errors from k on, errors at k and k+1, errors at k and k+2, error at k then crash}: %d fault experiments on the in-memory double (exhaustive); plus %d experiments on the real FileStorage (real process deaths: child SIGKILLed after call k; and wrapper-injected storage errors)", len(variants), total, nfs)
 	return nil
 }
 
 const c07BackendFS = "filestorage-sigkill"
+const c07BackendFSErr = "filestorage-errors"
 
 // c07RunFSCases runs the process-death experiments, at most width at a time.
 func c07RunFSCases(ins []c07In, base string, width int) []c07FSResult {
